@@ -43,6 +43,7 @@ type hookProgram struct {
 	FinalizeKeeps     bool   `json:"finalizeKeeps"`     // template, finalizing: keep asking for the children (step-down not started)
 	IntegralFloat     bool   `json:"integralFloat"`     // const: write the first "replicas":N as N.0 on the wire
 	PlainOwnerRef     bool   `json:"plainOwnerRef"`     // const: every child lists the parent as a plain (non-controller) owner
+	EmptyForImage     string `json:"emptyForImage"`     // template: no children at all for a parent (revision) with this image
 }
 
 func (h *hookProgram) answer(url string, req J) (int, map[string]string, []byte, bool) {
@@ -127,6 +128,9 @@ func (h *hookProgram) templateAnswer(req J) []byte {
 	image, _ := spec["image"].(string)
 	note, _ := spec["note"].(string)
 	cl := A{}
+	if h.EmptyForImage != "" && image == h.EmptyForImage {
+		n = 0
+	}
 	for i := int64(0); i < n; i++ {
 		for _, t := range h.Children {
 			c := runtime.DeepCopyJSON(t)
@@ -332,6 +336,34 @@ func (w *cworld) applyExt(op extOp) {
 		delete(md(cur), "ownerReferences")
 		delete(md(cur), "resourceVersion")
 		w.srv.Seed(cur)
+	case "plainowner": // controlled by somebody else, and listing the parent (op.Data: apiVersion, kind, namespace, name) as a plain owner
+		if cur == nil {
+			return
+		}
+		refs := A{J{"apiVersion": "v1", "kind": "Other", "name": "other", "uid": "uid-other", "controller": true}}
+		pav, _ := op.Data["apiVersion"].(string)
+		pk, _ := op.Data["kind"].(string)
+		pns, _ := op.Data["namespace"].(string)
+		pn, _ := op.Data["name"].(string)
+		if p := w.srv.GetLive(pav, pk, pns, pn); p != nil {
+			refs = append(refs, J{"apiVersion": pav, "kind": pk, "name": pn, "uid": md(p)["uid"]})
+		}
+		md(cur)["ownerReferences"] = refs
+		delete(md(cur), "resourceVersion")
+		w.srv.Seed(cur)
+	case "replace-drifted": // a new incarnation under the same name, same owners and labels, generation 1 again, spec drifted
+		if cur == nil {
+			return
+		}
+		w.srv.RemoveLive(op.APIVersion, op.Kind, op.Namespace, op.Name)
+		m := md(cur)
+		delete(m, "uid")
+		delete(m, "resourceVersion")
+		m["generation"] = int64(1)
+		for k, v := range op.Data {
+			cur[k] = v
+		}
+		w.srv.Seed(cur)
 	case "steal": // now controlled by somebody else
 		if cur == nil {
 			return
@@ -387,7 +419,8 @@ func (w *cworld) applyExt(op extOp) {
 		w.srv.Seed(cur)
 	case "healthy-all": // the fair environment: every object of the kind reports Ready and its own generation
 		for _, o := range w.srv.AllLive() {
-			if o["apiVersion"] == op.APIVersion && o["kind"] == op.Kind {
+			also := op.Data != nil && o["apiVersion"] == op.Data["alsoAPIVersion"] && o["kind"] == op.Data["alsoKind"]
+			if (o["apiVersion"] == op.APIVersion && o["kind"] == op.Kind) || also {
 				if op.Data != nil && op.Data["bare"] == true {
 					delete(o, "status")
 					delete(md(o), "resourceVersion")
@@ -448,6 +481,7 @@ type scenario struct {
 	Rounds   []roundSpec   `json:"rounds"`
 	Features []string      `json:"features"`
 	LongLived bool         `json:"longLived"` // one controller instance serves every recorded sync (its informers are fed by watch events)
+	SSAAfterWarmup bool    `json:"ssaAfterWarmup"` // the warm-up runs with dynamic apply, the recorded syncs with server-side apply
 }
 
 func parentKey(p J) string {
@@ -510,6 +544,9 @@ func runScenario(sc *scenario) (*caseRec, error) {
 		h["X-Verif-Seq"] = fmt.Sprint(len(w.srv.Log()))
 		return code, h, body, ne
 	})
+	if sc.SSAAfterWarmup {
+		sc.Ctl.SSA = false
+	}
 	seedParent := runtime.DeepCopyJSON(sc.Parent)
 	if md, ok := seedParent["metadata"].(map[string]interface{}); ok {
 		if _, has := md["generation"]; !has {
@@ -538,6 +575,9 @@ func runScenario(sc *scenario) (*caseRec, error) {
 			_ = b.pc.sync(key)
 		}()
 		b.close()
+	}
+	if sc.SSAAfterWarmup {
+		sc.Ctl.SSA = true
 	}
 	for _, op := range sc.Setup {
 		w.applyExt(op)
@@ -757,6 +797,7 @@ func coqSelector(ml map[string]string) string {
 }
 
 func coqKid(k kidSpec) string {
+	_ = k.EmptyStrategy // an empty strategy block reads as method "" (the default) in the model
 	return fmt.Sprintf("(mkChild %s %s %s %s %s)", vh.MustCoqString(k.APIVersion), vh.MustCoqString(k.Resource),
 		vh.MustCoqString(k.Kind), vh.CoqBool(k.Namespaced), vh.MustCoqString(k.Method))
 }
